@@ -119,6 +119,7 @@ public:
 };
 
 template class IdSetDense<uint64_t>;
+inline void c15_use_swap(IdSetDense<uint64_t>& a, IdSetDense<uint64_t>& b) { swap(a, b); }   // L1: swap forgets m_size
 template class IdSetDenseIterator<uint64_t, 22U>;
 
 namespace detail {
